@@ -360,3 +360,36 @@ Example parse_to_string_ex :
                            ch_dot; 98; ch_lb; ch_colon; ch_colon; ch_rb] /\
             parse (to_string p) = Ok p.
 Proof. eexists. split; [vm_compute; reflexivity|]. split; vm_compute; reflexivity. Qed.
+
+Example slice_semantics_range_ex :
+  parse [65; ch_lb; 49; ch_colon; ch_rb] = Ok (mkPath (Some slice_all) [mkComp ch_gt [65] (SSlice (Some 1%Z) None None)]) /\
+  parse [65; ch_lb; 49; ch_colon; ch_colon; ch_minus; 50; ch_rb]
+    = Ok (mkPath (Some slice_all) [mkComp ch_gt [65] (SSlice (Some 1%Z) None (Some (-2)%Z))]).
+Proof.
+  apply (slice_semantics_range [65] [49] (Some 1%Z) [] None [ch_minus; 50] (Some (-2)%Z));
+    try reflexivity; try (constructor; reflexivity); try (split; [discriminate|reflexivity]).
+Qed.
+
+Example slice_semantics_four_parts_ex :
+  parse [65; ch_lb; 49; ch_colon; 50; ch_colon; 51; ch_colon; 52; ch_rb; ch_slash; 66] = Err EPathExpr.
+Proof.
+  apply (slice_semantics_four_parts [65] [49] (Some 1%Z) [50] (Some 2%Z) [51] (Some 3%Z) [52; ch_rb; ch_slash; 66]);
+    try reflexivity; try (constructor; reflexivity); try (split; [discriminate|reflexivity]).
+Qed.
+
+Example parse_error_class_ex : parse [ch_at; ch_lb; ch_0; ch_rb] = Err EPathExpr /\ parse [] = Err EPathExpr.
+Proof. split; vm_compute; reflexivity. Qed.
+
+Example to_string_parses_ex :
+  wf_path (mkPath (Some (SInt 3)) [mkComp ch_slash [97; 95] (SSlice (Some (-7)%Z) None (Some 2%Z))]).
+Proof.
+  eexists _, _, _. split; [reflexivity|]. split; [split; [lia|]|split; [reflexivity|]].
+  - unfold small. change (Z.abs_N 3) with 3%N. apply N.lt_le_trans with (10 ^ 1)%N; [reflexivity|].
+    apply N.pow_le_mono_r; [lia|]. unfold max_str_digits. lia.
+  - constructor; [|constructor]. split; [reflexivity|]. split; [split; [discriminate|reflexivity]|].
+    cbn. split; [|split; [exact I|]]; unfold small.
+    + change (Z.abs_N (-7)) with 7%N. apply N.lt_le_trans with (10 ^ 1)%N; [reflexivity|].
+      apply N.pow_le_mono_r; [lia|]. unfold max_str_digits. lia.
+    + change (Z.abs_N 2) with 2%N. apply N.lt_le_trans with (10 ^ 1)%N; [reflexivity|].
+      apply N.pow_le_mono_r; [lia|]. unfold max_str_digits. lia.
+Qed.
